@@ -466,7 +466,7 @@ def harness_cases(tier, sd):
             add("crash", name, [B(top), {"op": "edit_src", "s": s0}, B(top, crash=cr), {"op": "revert_src", "s": s0}, B(top), B(top)])
             add("crash", name, [B(top), {"op": "edit_env", "t": gen}, B(top, crash=cr), {"op": "revert_env", "t": gen}, B(top), B(top)])
     # (d) random histories
-    for i in range(40 if quick else 600):
+    for i in range(70 if quick else 900):
         name = rnd.choice([n for n in SHAPES if n != "unwire"])    # (its from-scratch builds are not comparable)
         shape = SHAPES[name]
         steps = []
@@ -498,13 +498,22 @@ def harness_cases(tier, sd):
                 if s in cur.get("dirs", []):
                     st["kind"] = rnd.choice(["rename", "swap", "edit", "hidden", "hidden-nested"])
                 steps.append(st)
-            elif r < 0.82 and gens:
+            elif r < 0.80 and gens:
                 steps.append({"op": "delete", "s": rnd.choice(gens)})
+            elif r < 0.84 and nb > 0:
+                # an edit is undone
+                if rnd.random() < 0.5 or not srcs:
+                    steps.append({"op": "revert_env", "t": rnd.choice(tnames)})
+                else:
+                    s = rnd.choice(srcs)
+                    if s not in cur.get("dirs", []):
+                        steps.append({"op": "revert_src", "s": s})
             elif r < 0.95:
                 steps.append({"op": "nonedit", "kind": rnd.choice(["touch", "rewrite", "comment"])})
-            elif name in RESHAPE and not reshaped:
+            elif name in RESHAPE and name not in ("addedge", "rewire") and (not reshaped or rnd.random() < 0.5):
+                # (the shapes whose from-scratch builds are not comparable after an edge went away stay out)
                 steps.append({"op": "reshape"})
-                cur = RESHAPE[name]
+                cur = RESHAPE[name] if cur is shape else shape
                 reshaped = True
         steps.append(B(roots_of(cur)[0]))
         add("rnd", name, steps, values=rnd.choice(["", "", "int16", "str", "dict"]))
